@@ -14,7 +14,7 @@ def build_apps():
 def app(name): return os.path.join(BUILD, "release", name)
 
 class Feed:
-    """loopback server; script = list of steps: ('send', bytes) | ('sleep', seconds) | ('close',) | ('accept',)"""
+    """loopback server; script = list of steps: ('send', bytes) | ('sleep', seconds) | ('close',) | ('abort',) | ('accept',)"""
     def __init__(self):
         self.sock = socket.socket(socket.AF_INET, socket.SOCK_STREAM)
         self.sock.setsockopt(socket.SOL_SOCKET, socket.SO_REUSEADDR, 1)
@@ -33,6 +33,10 @@ class Feed:
                     elif step[0] == "close":
                         try: self.conn.shutdown(socket.SHUT_RDWR)
                         except OSError: pass
+                        self.conn.close(); self.conn = None
+                    elif step[0] == "abort":
+                        # abortive close: the peer sees a connection reset (RST), not an orderly end of stream
+                        self.conn.setsockopt(socket.SOL_SOCKET, socket.SO_LINGER, struct.pack("ii", 1, 0))
                         self.conn.close(); self.conn = None
             except Exception as e:
                 self.err = repr(e)
